@@ -68,17 +68,21 @@ theorem riscv_word_fits (c : Cls) (o : Ops) (h : valid c o) :
   unfold decodeAny at hd
   by_cases hc : c.isC = true
   · simp only [Cls.size, hc, if_true] at hd ⊢
-    unfold decodeC at hd
     by_cases hlt : 2 ^ 16 ≤ w.toNat
-    · simp [hlt] at hd
+    · exfalso
+      unfold decodeC at hd
+      rw [if_pos hlt] at hd
+      simp at hd
     · omega
-  · simp only [Cls.size, hc] at hd ⊢
-    simp only [Bool.false_eq_true, if_false] at hd
+  · have hc' : c.isC = false := by simpa using hc
+    simp only [Cls.size, hc', Bool.false_eq_true, if_false] at hd ⊢
     have h42 : ¬ ((4 : Nat) = 2) := by decide
-    simp only [h42, if_false] at hd
-    unfold decode at hd
+    rw [if_neg h42] at hd
     by_cases hlt : 2 ^ 32 ≤ w.toNat
-    · simp [hlt] at hd
+    · exfalso
+      unfold decode at hd
+      rw [if_pos hlt] at hd
+      simp at hd
     · omega
 
 /-- what the class prints is a spelling — the canonical form or a pseudo-instruction of the ISA manual —
@@ -173,32 +177,11 @@ theorem declarative_no_collision {tt : List TokenDesc} {is : List InstrDesc} (ho
     rw [hds] at hchk
     simp only [Bool.and_eq_true] at hchk
     obtain ⟨⟨hwfb, hord⟩, _⟩ := hchk
-    -- positions of the two patterns in the zipped lists
-    have hlen₁ : (patWrites flat₁).length = (instMarks ds flat₁).length := by
-      unfold instMarks; rw [marks_length, ← patWrites_pats, List.length_map]
-    have hlen₂ : (patWrites flat₂).length = (instMarks ds flat₂).length := by
-      unfold instMarks; rw [marks_length, ← patWrites_pats, List.length_map]
-    obtain ⟨i₁, hi₁, rfl⟩ := List.getElem_of_mem hp₁
-    obtain ⟨i₂, hi₂, rfl⟩ := List.getElem_of_mem hp₂
-    have hz₁ : ((patWrites flat₁)[i₁], (instMarks ds flat₁)[i₁]'(hlen₁ ▸ hi₁)) ∈ (patWrites flat₁).zip (instMarks ds flat₁) := by
-      rw [List.mem_iff_getElem]
-      exact ⟨i₁, by simp [List.length_zip, ← hlen₁, hi₁], by simp [List.getElem_zip]⟩
-    have hz₂ : ((patWrites flat₂)[i₂], (instMarks ds flat₂)[i₂]'(hlen₂ ▸ hi₂)) ∈ (patWrites flat₂).zip (instMarks ds flat₂) := by
-      rw [List.mem_iff_getElem]
-      exact ⟨i₂, by simp [List.length_zip, ← hlen₂, hi₂], by simp [List.getElem_zip]⟩
+    obtain ⟨b₁, hz₁, hpm₁⟩ := pattern_with_mark ds flat₁ pv₁ hp₁
+    obtain ⟨b₂, hz₂, hpm₂⟩ := pattern_with_mark ds flat₂ pv₂ hp₂
     -- both are marked: operand patterns under orderedOK
-    have hpm₁ : ((patWrites flat₁)[i₁].1, (instMarks ds flat₁)[i₁]'(hlen₁ ▸ hi₁)) ∈
-        ((flat₁.map (·.1)).flatMap (·.patterns)).zip (marks ds ((flat₁.map (·.1)).flatMap (·.patterns))) := by
-      rw [← patWrites_pats, List.mem_iff_getElem]
-      refine ⟨i₁, by simp [List.length_zip, marks_length, hi₁], ?_⟩
-      simp [List.getElem_zip, instMarks, patWrites_pats]
-    have hpm₂ : ((patWrites flat₂)[i₂].1, (instMarks ds flat₂)[i₂]'(hlen₂ ▸ hi₂)) ∈
-        ((flat₂.map (·.1)).flatMap (·.patterns)).zip (marks ds ((flat₂.map (·.1)).flatMap (·.patterns))) := by
-      rw [← patWrites_pats, List.mem_iff_getElem]
-      refine ⟨i₂, by simp [List.length_zip, marks_length, hi₂], ?_⟩
-      simp [List.getElem_zip, instMarks, patWrites_pats]
-    have hm₁ := ordered_marks ds _ hord _ hpm₁ hnf
-    have hm₂ := ordered_marks ds _ (hshape ▸ hord) _ hpm₂ (hpe ▸ hnf)
+    have hm₁ : b₁ = true := ordered_marks ds _ hord _ hpm₁ hnf
+    have hm₂ : b₂ = true := ordered_marks ds _ (hshape ▸ hord) _ hpm₂ (hpe ▸ hnf)
     obtain ⟨v₁, v₂, fd, e₁, e₂, _, hmod⟩ :=
       same_tokens_same_operands tt flat₁ flat₂ ds ts hshape hds hwfb h₁ h₂ _ hz₁ _ hz₂ hm₁ hm₂ hpe
     exact ⟨v₁, v₂, fd, e₁, e₂, hmod, fun lo ha hb => eq_of_mod_eq_of_window hmod ha hb⟩
